@@ -134,6 +134,16 @@ func (f *FnVC) loopEnv(li *loopInfo, st *State, subst map[ssa.Value]TV) *Env {
 	env.st = st
 	env.old = f.root
 	env.oldVars = f.paramTV
+	// iterold(e) in a clause of a nested loop: e at the beginning of the current iteration of the ENCLOSING loop
+	var parent *loopInfo
+	for _, o := range f.loops {
+		if o != li && o.blocks[li.head.Index] && o.headState != nil && (parent == nil || len(o.blocks) < len(parent.blocks)) {
+			parent = o
+		}
+	}
+	if parent != nil {
+		env.iterOld = parent.headState
+	}
 	fvl := f.freeVarLazy()
 	env.lazy = func(name string, s *State) (TV, bool) {
 		if v, ok := li.names[name]; ok {
